@@ -32,6 +32,12 @@ import ClarabelProofs.Lemmas.KktGenPowMulHs
 import ClarabelProofs.Lemmas.NonsymGenPowScaling
 import ClarabelProofs.Lemmas.KktSymOfMain
 import ClarabelProofs.Lemmas.KktSymOfExample
+import ClarabelProofs.Lemmas.KktPasses
+import ClarabelProofs.Lemmas.KktPassesMain
+import ClarabelProofs.Lemmas.KktQdldlNoZeroPivot
+import ClarabelProofs.Lemmas.KktStaticOnly
+import ClarabelProofs.Lemmas.KktSocDenseHs
+import ClarabelProofs.Lemmas.KktFormGenPow
 
 namespace Clarabel.C11
 open Clarabel Clarabel.Csc Clarabel.Kkt
@@ -1805,5 +1811,468 @@ example : ∃ (P A K : Csc ℝ) (cones : List ConeSpec) (map : LDLDataMap)
   decide
 
 end assembled_sym
+
+end Clarabel.C11
+
+-- ====================================================================================
+-- round 5 follow-up: every pass of the interior-point loop; static regularisation alone;
+-- dense second-order cone and generalised power cone blocks from the cone models
+-- ====================================================================================
+
+namespace Clarabel.C11
+open Clarabel Clarabel.Csc Clarabel.Kkt
+
+/-
+  Vocabulary (`ClarabelModel/KktPasses.lean`, `Lemmas/KktPasses.lean`):
+  * `updatePass nz map ds enable const prop scal`: one call of `DirectLDLKKTSolver::update` on the
+    current value array `nz` — `update` (`updateValues`) then `regularize_and_refactor`
+    (`regularizeAndRestore`); output: the refinement copy `nzval`, the values the LDL engine
+    factorised `nzFactor`, the regulariser `eps`;
+  * `runPasses map ds enable const prop nz hist`: one such call per entry of `hist` (the scaling
+    data of the successive passes), each on the value array the previous one left;
+  * `finalNz nz outs`: the value array after the passes with outputs `outs`;
+  * `VecLens c`: `|u| = |v| = dim`, `|p| = dim1 + dim2`, `|q| = dim1` (= `VecFits`, scalar-generic).
+-/
+
+section every_pass_structural
+open Clarabel.Lemmas.KktSpec Clarabel.Lemmas.KktUpdateAsm Clarabel.Lemmas.KktPasses
+
+variable {α : Type} [Add α] [Sub α] [Mul α] [Div α] [Neg α] [OfNat α 0] [OfNat α 1] [LT α]
+  [DecidableLT α] [FloatLike α]
+
+/-- [S] `C11.pass_history_independent`: **`update` at any pass of the interior-point loop is
+`update` right after the assembly.**  `K, map` from `assemble_kkt_matrix` (either triangle); `hist`
+ANY sequence of earlier calls of `update` that returned (whatever their scaling data, whether the
+static regularisation was on, with which constants); `scal` the scaling data of the current pass,
+with the layout of the cone list and expansion vectors of the lengths `update_scaling` gives them.
+Then the call of `update` on the value array left by the history returns bit for bit what the call
+on the freshly assembled array returns — same refinement copy, same values handed to the LDL
+engine, same regulariser (same error, if `get_Hs` fails): every scaling-dependent position of
+`KKT.nzval` is overwritten with values that do not depend on its old content, nothing else is
+written, and `regularize_and_refactor` restores the unregularised diagonal before it returns. -/
+theorem pass_history_independent {P A K : Csc α} {cones : List ConeSpec} {shape : MatrixTriangle}
+    {map : LDLDataMap} (hin : KktInputs P A cones)
+    (hasm : assembleKktMatrix P A cones shape = .ok (K, map)) (ds0 : Array Int) (en0 : Bool)
+    (c0 p0 : α) (hist : List (List (ConeScaling α))) (outs : List (PassOut α))
+    (hrun : runPasses map ds0 en0 c0 p0 K.nzval hist = .ok outs)
+    (scal : List (ConeScaling α)) (hfits : LayoutFits scal cones)
+    (hvec : ∀ c ∈ scal, VecLens c) (ds : Array Int) (en : Bool) (c p : α) :
+    updateValues (finalNz K.nzval outs) map scal = updateValues K.nzval map scal ∧
+    updatePass (finalNz K.nzval outs) map ds en c p scal = updatePass K.nzval map ds en c p scal :=
+  ⟨updateValues_start_irrelevant hin hasm scal hfits hvec _
+      (runPasses_startOK hin hasm ds0 en0 c0 p0 hist K.nzval outs (startOK_self K map) hrun),
+    by
+      have hs := runPasses_startOK hin hasm ds0 en0 c0 p0 hist K.nzval outs (startOK_self K map) hrun
+      unfold updatePass
+      rw [updateValues_start_irrelevant hin hasm scal hfits hvec _ hs]⟩
+
+/-- [S] `C11.passes_last_is_fresh`: **the outputs of the LAST pass of any history are those of a
+fresh `assemble + update` with the last scaling data alone** — the model-side statement of the
+harness oracle "history independence" (`kkt.update`, histories `twice` / `ident`; `kkt.passes`). -/
+theorem passes_last_is_fresh {P A K : Csc α} {cones : List ConeSpec} {shape : MatrixTriangle}
+    {map : LDLDataMap} (hin : KktInputs P A cones)
+    (hasm : assembleKktMatrix P A cones shape = .ok (K, map)) (ds : Array Int) (en : Bool)
+    (c p : α) (hist : List (List (ConeScaling α))) (scal : List (ConeScaling α))
+    (hfits : LayoutFits scal cones) (hvec : ∀ c ∈ scal, VecLens c) (outs : List (PassOut α))
+    (hrun : runPasses map ds en c p K.nzval (hist ++ [scal]) = .ok outs) :
+    ∃ init o, outs = init ++ [o] ∧ updatePass K.nzval map ds en c p scal = .ok o :=
+  runPasses_last hin hasm ds en c p hist scal hfits hvec outs hrun
+
+/-- [S] `C11.passes_keep_PA`: after any sequence of passes the value array has the assembled length
+and still holds the assembled value at every position that is neither an Hs position nor a position
+of a sparse expansion map (the entries of `P` and `A`, the filled-in diagonal zeros). -/
+theorem passes_keep_PA {P A K : Csc α} {cones : List ConeSpec} {shape : MatrixTriangle}
+    {map : LDLDataMap} (hin : KktInputs P A cones)
+    (hasm : assembleKktMatrix P A cones shape = .ok (K, map)) (ds : Array Int) (en : Bool)
+    (c p : α) (hist : List (List (ConeScaling α))) (outs : List (PassOut α))
+    (hrun : runPasses map ds en c p K.nzval hist = .ok outs) :
+    (finalNz K.nzval outs).size = K.nzval.size ∧
+    ∀ j, j ∉ map.Hsblocks.toList →
+      (∀ mp ∈ map.sparse_maps.toList, j ∉ Clarabel.Kkt.SparseMap.indices mp) →
+      (finalNz K.nzval outs)[j]? = K.nzval[j]? := by
+  have hs := runPasses_startOK hin hasm ds en c p hist K.nzval outs (startOK_self K map) hrun
+  refine ⟨hs.1, fun j h1 h2 => hs.2 j ?_⟩
+  rintro (h | ⟨mp, hmp, h⟩)
+  · exact h1 h
+  · exact h2 mp hmp h
+
+end every_pass_structural
+
+section every_pass
+open Clarabel.Lemmas.KktInertia Clarabel.Lemmas.KktInertiaList Clarabel.Lemmas.KktInertiaCones
+open Clarabel.Lemmas.KktSpec Clarabel.Lemmas.KktUpdateAsm
+open Clarabel.Lemmas.KktSymOfIdx Clarabel.Lemmas.KktSymOfEntries Clarabel.Lemmas.KktSymOfValues
+open Clarabel.Lemmas.KktSymOfMain Clarabel.Lemmas.KktPasses
+
+variable {α : Type} [Field α] [LinearOrder α] [IsStrictOrderedRing α] [FloatLike α]
+
+/-- [F] `C11.pass_symOf_eq_listKkt`: **at EVERY pass the dense symmetric meaning of the matrix handed
+to the LDL engine is `listKkt` with the CURRENT Hs blocks, the current expansion data and the
+regularised diagonal** — `assembled_symOf_eq_listKkt` with the freshly assembled value array
+replaced by whatever any history `hist` of earlier passes left. -/
+theorem pass_symOf_eq_listKkt {P A K : Csc α} {cones : List ConeSpec} {map : LDLDataMap}
+    (hin : KktInputs P A cones) (hasm : assembleKktMatrix P A cones .triu = .ok (K, map))
+    (ds0 : Array Int) (en0 : Bool) (c0 p0 : α) (hist : List (List (ConeScaling α)))
+    (outs : List (PassOut α)) (hrun : runPasses map ds0 en0 c0 p0 K.nzval hist = .ok outs)
+    (scal : List (ConeScaling α)) (hfits : LayoutFits scal cones)
+    (hvec : ∀ i (hi : i < scal.length), VecFits scal[i]) (nz' : Array α)
+    (hup : updateValues (finalNz K.nzval outs) map scal = .ok nz') (blocks : List (Array α))
+    (hget : scal.mapM getHs = .ok blocks)
+    (ds : Array Int) (hds : fillSigns A.m A.n map.sparse_maps = .ok ds) (cst prp : α)
+    (rr : Regularized α) (nzF : Array α)
+    (hreg : regularizeAndRestore nz' map.diag_full ds true cst prp = .ok (rr, nzF)) :
+    (∀ a b : KktIdx A.n cones,
+      Clarabel.Qdldl.symOf ({ K with nzval := nzF } : Csc α) (flatPos A.n cones a)
+          (flatPos A.n cones b)
+        = listKkt (PdOf P A.n) (epOf cones scal)
+            (couplingOf A.n cones (Clarabel.Qdldl.symOf ({ K with nzval := nzF } : Csc α)))
+            (HOf cones blocks) (VOf cones scal) (eOf cones scal) rr.eps a b) ∧
+    updateValues K.nzval map scal = .ok nz' :=
+  ⟨Clarabel.Lemmas.KktPasses.pass_symOf_eq_listKkt hin hasm ds0 en0 c0 p0 hist outs hrun scal hfits
+      hvec nz' hup blocks hget ds hds cst prp rr nzF hreg,
+    by rw [← update_after_history hin hasm ds0 en0 c0 p0 hist outs hrun scal hfits hvec]; exact hup⟩
+
+variable [LawfulFloatLike α]
+
+/-- [F] `C11.kkt_factorisation_signs_every_pass`: **`kkt_factorisation_signs_assembled` at EVERY
+pass of the interior-point loop.**  After ANY history `hist` of earlier calls of `update` (any
+scaling data; they only have to return), for the call with the current scaling data `scal` (layout
+of the cone list), regulariser `ε = r.eps > 0`, `P ⪰ 0` and nonnegative bordered cone forms: for ANY
+valid permutation and threshold `eps ≤ ε`, `QDLDLFactorisation::new` on the values handed to the LDL
+engine returns a factorisation when the dynamic regularisation is on (no `ZeroPivot`, no panic),
+every returned `D[r]` has the sign `ds[perm[r]]` and modulus `≥ ε`, `regularize_count = 0`,
+`positive_inertia = n + Σ nPlus`. -/
+theorem kkt_factorisation_signs_every_pass {P A K : Csc α} {cones : List ConeSpec}
+    {map : LDLDataMap} (hin : KktInputs P A cones)
+    (hasm : assembleKktMatrix P A cones .triu = .ok (K, map))
+    (ds0 : Array Int) (en0 : Bool) (c0 p0 : α) (hist : List (List (ConeScaling α)))
+    (outs : List (PassOut α)) (hrun : runPasses map ds0 en0 c0 p0 K.nzval hist = .ok outs)
+    (scal : List (ConeScaling α)) (hfits : LayoutFits scal cones)
+    (hvec : ∀ i (hi : i < scal.length), VecFits scal[i]) (nz' : Array α)
+    (hup : updateValues (finalNz K.nzval outs) map scal = .ok nz') (blocks : List (Array α))
+    (hget : scal.mapM getHs = .ok blocks)
+    (ds : Array Int) (hds : fillSigns A.m A.n map.sparse_maps = .ok ds) (cst prp : α)
+    (rr : Regularized α) (nzF : Array α)
+    (hreg : regularizeAndRestore nz' map.diag_full ds true cst prp = .ok (rr, nzF))
+    (hP : PosSemidef (PdOf P A.n))
+    (hform : ∀ i y s, 0 ≤ expForm (HOf cones blocks i) (VOf cones scal i) (eOf cones scal i) y s)
+    (hε : 0 < rr.eps) (hn : 0 < K.n)
+    (perm iperm : Array Nat) (hip : Clarabel.Perm.invperm perm = .ok iperm)
+    (hps : perm.size = K.n) (enable : Bool) (eps delta : α) (heps : eps ≤ rr.eps) :
+    (enable = true → 0 < eps → delta ≠ 0 →
+      ∃ F, Clarabel.Qdldl.new ({ K with nzval := nzF } : Csc α) perm (some ds) enable eps delta false
+        = .ok F) ∧
+    ∀ F, Clarabel.Qdldl.new ({ K with nzval := nzF } : Csc α) perm (some ds) enable eps delta false
+        = .ok F →
+      (∀ r, r < K.n → perm.getD r 0 < K.n ∧
+        ((ds.getD (perm.getD r 0) 0 = 1 ∧ rr.eps ≤ F.D.getD r 0) ∨
+         (ds.getD (perm.getD r 0) 0 = -1 ∧ F.D.getD r 0 ≤ -rr.eps))) ∧
+      F.regularizeCount = 0 ∧
+      F.positiveInertia = A.n + ∑ i : Fin cones.length, nPlus cones[i] := by
+  rw [update_after_history hin hasm ds0 en0 c0 p0 hist outs hrun scal hfits hvec] at hup
+  exact kkt_factorisation_signs_assembled hin hasm scal hfits hvec nz' hup blocks hget ds hds cst prp
+    rr nzF hreg hP hform hε hn perm iperm hip hps enable eps delta heps
+
+/-- non-vacuity of `pass_history_independent`, `passes_last_is_fresh`, `passes_keep_PA`,
+`pass_symOf_eq_listKkt`, `kkt_factorisation_signs_every_pass` and (below) `kkt_no_zero_pivot_assembled`
+(over ℝ, `Lemmas/KktPassesMain.lean` `exPasses`): the example
+of `assembled_symOf_eq_listKkt` with ONE EARLIER PASS (history of length 1, regulariser `1`): the
+history runs, the second `update` on the array it left returns, and all other hypotheses hold. -/
+example : ∃ (P A K : Csc ℝ) (cones : List ConeSpec) (map : LDLDataMap)
+    (scal : List (ConeScaling ℝ)) (nz' : Array ℝ) (blocks : List (Array ℝ)) (ds : Array Int)
+    (rr : Regularized ℝ) (nzF : Array ℝ) (outs : List (PassOut ℝ)) (iperm : Array Nat),
+    KktInputs P A cones ∧ assembleKktMatrix P A cones .triu = .ok (K, map) ∧
+    LayoutFits scal cones ∧ (∀ i (hi : i < scal.length), VecFits scal[i]) ∧
+    (∀ c ∈ scal, VecLens c) ∧
+    runPasses map ds true 1 0 K.nzval [scal] = .ok outs ∧ outs.length = 1 ∧
+    updateValues (finalNz K.nzval outs) map scal = .ok nz' ∧ scal.mapM getHs = .ok blocks ∧
+    fillSigns A.m A.n map.sparse_maps = .ok ds ∧
+    regularizeAndRestore nz' map.diag_full ds true 1 0 = .ok (rr, nzF) ∧
+    PosSemidef (PdOf P A.n) ∧
+    (∀ i y s, 0 ≤ expForm (HOf cones blocks i) (VOf cones scal i) (eOf cones scal i) y s) ∧
+    0 < rr.eps ∧ 0 < K.n ∧
+    Clarabel.Perm.invperm #[9, 8, 7, 6, 5, 4, 3, 2, 1, 0] = .ok iperm ∧
+    (#[9, 8, 7, 6, 5, 4, 3, 2, 1, 0] : Array Nat).size = K.n := by
+  obtain ⟨K, map, scal, nz', blocks, ds, rr, nzF, outs, h1, h2, h3, hrun, hlen, h4, h5, h6, h7, h8,
+    h9, h10⟩ := exPasses
+  refine ⟨_, _, K, _, map, scal, nz', blocks, ds, rr, nzF, outs,
+    #[9, 8, 7, 6, 5, 4, 3, 2, 1, 0], Clarabel.Lemmas.KktSymOfExample.exInputs, h1, h2, h3,
+    vecLens_of_vecFits h3, hrun, hlen, h4, h5, h6, h7, Clarabel.Lemmas.KktSymOfExample.exP_psd, h10,
+    h8, h9, by rfl, ?_⟩
+  rw [asm_order Clarabel.Lemmas.KktSymOfExample.exInputs h1]
+  decide
+
+end every_pass
+
+-- ------------------------------------------------------------------ static regularisation alone
+
+section static_only
+open Clarabel.Lemmas.KktInertia Clarabel.Lemmas.KktInertiaList Clarabel.Lemmas.KktInertiaCones
+open Clarabel.Lemmas.KktSpec Clarabel.Lemmas.KktUpdateAsm
+open Clarabel.Lemmas.KktSymOfIdx Clarabel.Lemmas.KktSymOfEntries Clarabel.Lemmas.KktSymOfValues
+open Clarabel.Lemmas.KktSymOfMain Clarabel.Lemmas.KktPasses
+
+variable {α : Type} [Field α] [LinearOrder α] [IsStrictOrderedRing α] [FloatLike α]
+
+/-- [F] `C11.kkt_no_zero_pivot_static`: **no `ZeroPivot` with the dynamic regularisation OFF, for ANY
+permutation** — Vanderbei on the composed models of C11 and C12.  `K` a valid QDLDL input whose
+symmetric meaning is quasidefinite with margin `ε > 0` for the pattern `s` (the statically
+regularised KKT matrix: `inertia_cone_list`, `assembled_quasiDefGE`), `perm` ANY valid ordering,
+`eps`, `delta` arbitrary (they are not read).  Then `QDLDLFactorisation::new(K, perm, dsigns,
+regularize_enable = false, …)` returns a factorisation object — never `ZeroPivot` — and for every
+returned object `D[r]` is exactly the `r`-th pivot `refPivot` of the reference elimination (C12) of
+`Π Sym(K) Πᵀ`, has the sign `s (perm[r])` and modulus `≥ ε`; `regularize_count = 0`,
+`positive_inertia = #{i | s i}`. -/
+theorem kkt_no_zero_pivot_static (K : Csc α) (hw : Clarabel.Qdldl.wellFormed K = true)
+    (hc : Clarabel.Qdldl.checkStructure K = .ok ())
+    (hnd : Clarabel.Qdldl.NoDupCols K.colptr K.rowval) (hn : 0 < K.n)
+    (perm iperm : Array Nat) (hip : Clarabel.Perm.invperm perm = .ok iperm) (hps : perm.size = K.n)
+    (ds : Array Int) (hdsz : K.n ≤ ds.size) (s : Fin K.n → Bool) (eps delta ε : α)
+    (hQ : QuasiDefGE (fun i j : Fin K.n => Clarabel.Qdldl.symOf K i.val j.val) s Finset.univ ε)
+    (hε : 0 < ε) :
+    (∃ F, Clarabel.Qdldl.new K perm (some ds) false eps delta false = .ok F) ∧
+    Clarabel.Qdldl.new K perm (some ds) false eps delta false ≠ .error Clarabel.Qdldl.errZeroPivot ∧
+    ∀ F, Clarabel.Qdldl.new K perm (some ds) false eps delta false = .ok F →
+      (∀ r, r < K.n → ∃ hpr : perm.getD r 0 < K.n,
+        (if s ⟨perm.getD r 0, hpr⟩ then ε ≤ F.D.getD r 0 else F.D.getD r 0 ≤ -ε) ∧
+        F.D.getD r 0 = Clarabel.Qdldl.refPivot (Clarabel.Qdldl.permSym K perm) r) ∧
+      F.regularizeCount = 0 ∧
+      F.positiveInertia = (Finset.univ.filter (fun i : Fin K.n => s i = true)).card := by
+  obtain ⟨h1, h2, h3⟩ := Clarabel.Qdldl.new_ok_of_quasiDef K hw hc hnd hn perm iperm hip hps ds hdsz
+    s eps delta ε hQ hε
+  refine ⟨h1, h2, fun F hF => ⟨h3 F hF, ?_⟩⟩
+  exact Clarabel.Qdldl.new_static_counts K hw hc hnd hn perm iperm hip hps ds hdsz s eps delta ε hQ
+    hε F hF
+
+/-- non-vacuity of `kkt_no_zero_pivot_static` (over ℝ): `K = [[2, 1], [1, −3]]`, reversed ordering,
+`ε = 1` (the example of `kkt_factorisation_signs`). -/
+example : Clarabel.Qdldl.wellFormed Clarabel.Lemmas.KktQdldlExample.exK2 = true ∧
+    Clarabel.Qdldl.checkStructure Clarabel.Lemmas.KktQdldlExample.exK2 = .ok () ∧
+    Clarabel.Qdldl.NoDupCols Clarabel.Lemmas.KktQdldlExample.exK2.colptr
+      Clarabel.Lemmas.KktQdldlExample.exK2.rowval ∧
+    0 < Clarabel.Lemmas.KktQdldlExample.exK2.n ∧
+    Clarabel.Perm.invperm #[1, 0] = .ok #[1, 0] ∧
+    (#[1, 0] : Array Nat).size = Clarabel.Lemmas.KktQdldlExample.exK2.n ∧
+    Clarabel.Lemmas.KktQdldlExample.exK2.n ≤ (#[1, -1] : Array Int).size ∧
+    QuasiDefGE (fun i j : Fin 2 =>
+      Clarabel.Qdldl.symOf Clarabel.Lemmas.KktQdldlExample.exK2 i.val j.val)
+      Clarabel.Lemmas.KktQdldlExample.exS2 Finset.univ (1 : ℝ) ∧ (0 : ℝ) < 1 :=
+  ⟨Clarabel.Lemmas.KktQdldlExample.exK2_wellFormed,
+    Clarabel.Lemmas.KktQdldlExample.exK2_checkStructure,
+    Clarabel.Lemmas.KktQdldlExample.exK2_nodup, by decide,
+    Clarabel.Lemmas.KktQdldlExample.exK2_invperm, rfl, by decide,
+    Clarabel.Lemmas.KktQdldlExample.exK2_quasiDefGE, one_pos⟩
+
+/-- [F] `C11.kkt_no_zero_pivot_assembled`: **`kkt_no_zero_pivot_static` for the model's own
+assemble + update + regularise, at every pass**: dynamic regularisation OFF, static regularisation ON
+with `ε = r.eps > 0`, after ANY history of earlier passes, `P ⪰ 0`, nonnegative bordered cone forms.
+For ANY valid permutation (and any `eps`, `delta`): `QDLDLFactorisation::new` on the values handed to
+the LDL engine returns `Ok` — never `ZeroPivot` —, every `D[r]` has the sign `ds[perm[r]]` and
+modulus `≥ ε`, `regularize_count = 0`, `positive_inertia = n + Σ nPlus`. -/
+theorem kkt_no_zero_pivot_assembled {P A K : Csc α} {cones : List ConeSpec}
+    {map : LDLDataMap} (hin : KktInputs P A cones)
+    (hasm : assembleKktMatrix P A cones .triu = .ok (K, map))
+    (ds0 : Array Int) (en0 : Bool) (c0 p0 : α) (hist : List (List (ConeScaling α)))
+    (outs : List (PassOut α)) (hrun : runPasses map ds0 en0 c0 p0 K.nzval hist = .ok outs)
+    (scal : List (ConeScaling α)) (hfits : LayoutFits scal cones)
+    (hvec : ∀ i (hi : i < scal.length), VecFits scal[i]) (nz' : Array α)
+    (hup : updateValues (finalNz K.nzval outs) map scal = .ok nz') (blocks : List (Array α))
+    (hget : scal.mapM getHs = .ok blocks)
+    (ds : Array Int) (hds : fillSigns A.m A.n map.sparse_maps = .ok ds) (cst prp : α)
+    (rr : Regularized α) (nzF : Array α)
+    (hreg : regularizeAndRestore nz' map.diag_full ds true cst prp = .ok (rr, nzF))
+    (hP : PosSemidef (PdOf P A.n))
+    (hform : ∀ i y s, 0 ≤ expForm (HOf cones blocks i) (VOf cones scal i) (eOf cones scal i) y s)
+    (hε : 0 < rr.eps) (hn : 0 < K.n)
+    (perm iperm : Array Nat) (hip : Clarabel.Perm.invperm perm = .ok iperm)
+    (hps : perm.size = K.n) (eps delta : α) :
+    (∃ F, Clarabel.Qdldl.new ({ K with nzval := nzF } : Csc α) perm (some ds) false eps delta false
+      = .ok F) ∧
+    Clarabel.Qdldl.new ({ K with nzval := nzF } : Csc α) perm (some ds) false eps delta false
+      ≠ .error Clarabel.Qdldl.errZeroPivot ∧
+    ∀ F, Clarabel.Qdldl.new ({ K with nzval := nzF } : Csc α) perm (some ds) false eps delta false
+        = .ok F →
+      (∀ r, r < K.n → perm.getD r 0 < K.n ∧
+        ((ds.getD (perm.getD r 0) 0 = 1 ∧ rr.eps ≤ F.D.getD r 0) ∨
+         (ds.getD (perm.getD r 0) 0 = -1 ∧ F.D.getD r 0 ≤ -rr.eps))) ∧
+      F.regularizeCount = 0 ∧
+      F.positiveInertia = A.n + ∑ i : Fin cones.length, nPlus cones[i] := by
+  have hup0 := hup
+  rw [update_after_history hin hasm ds0 en0 c0 p0 hist outs hrun scal hfits hvec] at hup0
+  obtain ⟨_, hsz⟩ := assembled_sizes hin hasm scal nz' hup0 ds cst prp rr nzF hreg
+  obtain ⟨hw, hc, hnd, _⟩ := kkt_is_qdldl_input hin hasm nzF hsz
+  obtain ⟨hdsz, hdsv⟩ := assembled_signs_getD hin hasm ds hds
+  have hQ := assembled_quasiDefGE hin hasm scal hfits hvec nz' hup0 blocks hget ds hds cst prp rr nzF
+    hreg hP hform
+  obtain ⟨k1, k2, k3⟩ := kkt_no_zero_pivot_static ({ K with nzval := nzF } : Csc α) hw hc hnd hn perm
+    iperm hip hps ds hdsz (fun i => (kktEquiv A.n cones K.n (asm_order hin hasm) i).isLeft) eps delta
+    rr.eps hQ hε
+  refine ⟨k1, k2, fun F hF => ?_⟩
+  obtain ⟨h1, h2, h3⟩ := k3 F hF
+  refine ⟨fun r hr => ?_, h2, ?_⟩
+  · obtain ⟨hpr, e2, _⟩ := h1 r hr
+    refine ⟨hpr, ?_⟩
+    have e1 := hdsv ⟨perm.getD r 0, hpr⟩
+    by_cases hs : (kktEquiv A.n cones K.n (asm_order hin hasm) ⟨perm.getD r 0, hpr⟩).isLeft = true
+    · left
+      rw [if_pos hs] at e1 e2
+      exact ⟨e1, e2⟩
+    · right
+      rw [if_neg hs] at e1 e2
+      exact ⟨e1, e2⟩
+  · rw [h3]
+    exact (assembled_plus_count hin hasm).trans (positive_inertia_count A.n cones)
+
+end static_only
+
+-- ------------------------------------------------------------------ blocks from the cone models
+
+section cone_model_blocks
+open Clarabel.Lemmas.KktInertia Clarabel.Lemmas.KktInertiaList Clarabel.Lemmas.KktInertiaCones
+open Clarabel.Lemmas.KktSpec Clarabel.Lemmas.KktUpdateAsm Clarabel.Lemmas.KktScalingFits
+open Clarabel.Lemmas.KktSymOfValues Clarabel.Lemmas.KktSymOfMain
+
+/-- [S] `C11.socDense_getHs_model`: **C11's `get_Hs` on the data of a DENSE second-order cone
+(dimension `2 … 4`, no sparse expansion) IS the cone model's `get_Hs`** (C13's `Soc.getHs`), at
+every scalar type (`Float` included): the two models of `SecondOrderCone::get_Hs` return the same
+packed upper triangle (or the same panic). -/
+theorem socDense_getHs_model {α : Type} [Add α] [Sub α] [Mul α] [Div α] [Neg α] [OfNat α 0]
+    [OfNat α 1] [LT α] [DecidableLT α] [FloatLike α] (K : Clarabel.Soc.Cone α)
+    (hsp : K.sparse = none) (hw : K.w.size = K.dim) (h2 : 2 ≤ K.dim) (h4 : K.dim ≤ 4) :
+    getHs (scalingOfSoc K) = Clarabel.Soc.getHs K ∧
+    getHs (.socDense K.w K.eta) = Clarabel.Soc.getHs K :=
+  ⟨Clarabel.Lemmas.KktSocDenseHs.socDense_getHs_eq K hsp hw h2 h4,
+    Clarabel.Lemmas.KktSocDenseHs.socDense_getHs_eq' K hsp hw h2 h4⟩
+
+/-- non-vacuity of `socDense_getHs_model`: a `Float` cone of dimension 2 -/
+example : (⟨2, #[1.5, 0.5], #[1, 0], 2, none⟩ : Clarabel.Soc.Cone Float).sparse = none ∧
+    (⟨2, #[1.5, 0.5], #[1, 0], 2, none⟩ : Clarabel.Soc.Cone Float).w.size = 2 :=
+  ⟨rfl, rfl⟩
+
+/-- [R] `C11.socDense_block_is_WtW`: **the dense second-order-cone block that `update` writes is the
+operator `mul_Hs = WᵀW` of the cone model** (C13 `soc_dense_getHs_eq_mulHs`, `soc_mulHs_eq`): for
+`w = (w0, w1)` of dimension `d ∈ 2…4` and the vector `H` that C11's `get_Hs` returns, read as a
+symmetric matrix the way the assembly stores it (`coneH`, packed upper triangle),
+`Σ_c H[a,c]·x_c = (mul_Hs x)_a` for every `x`; and for a normalised `w` (`w0² − ‖w1‖² = 1`,
+`w0 > 0`: C13 `soc_w_normalised`) its quadratic form is `‖W y‖²` (`mul_W`), hence `⪰ 0`. -/
+theorem socDense_block_is_WtW (w0 : ℝ) (w1 : List ℝ) (η : ℝ) (d : Nat) (hd : w1.length + 1 = d)
+    (h2 : 2 ≤ d) (h4 : d ≤ 4) (H : Array ℝ)
+    (hH : getHs (.socDense (Clarabel.Soc.join w0 w1) η) = .ok H) :
+    (∀ (x0 : ℝ) (x1 : List ℝ), x1.length = w1.length → ∀ a, a < d →
+      ∑ c : Fin d, coneH (.soc d) H a c.val * (Clarabel.Soc.join x0 x1).getD c.val 0
+        = (Clarabel.Soc.join (Clarabel.Soc.mulHsCore x0 x1 w0 w1 η).1
+            (Clarabel.Soc.mulHsCore x0 x1 w0 w1 η).2).getD a 0) ∧
+    (w0 ^ 2 - Clarabel.Soc.dotL w1 w1 = 1 → 0 < w0 → ∀ y : Fin d → ℝ,
+      qf (fun a a' : Fin d => coneH (.soc d) H a.val a'.val) y
+        = (Clarabel.Soc.mulWCore (Clarabel.Lemmas.KktSocDenseHs.vhead y)
+              (Clarabel.Lemmas.KktSocDenseHs.vtail y) (Clarabel.Lemmas.KktSocDenseHs.vhead y)
+              (Clarabel.Lemmas.KktSocDenseHs.vtail y) 1 0 w0 w1 η).1 ^ 2
+          + Clarabel.Soc.dotL
+              (Clarabel.Soc.mulWCore (Clarabel.Lemmas.KktSocDenseHs.vhead y)
+                (Clarabel.Lemmas.KktSocDenseHs.vtail y) (Clarabel.Lemmas.KktSocDenseHs.vhead y)
+                (Clarabel.Lemmas.KktSocDenseHs.vtail y) 1 0 w0 w1 η).2
+              (Clarabel.Soc.mulWCore (Clarabel.Lemmas.KktSocDenseHs.vhead y)
+                (Clarabel.Lemmas.KktSocDenseHs.vtail y) (Clarabel.Lemmas.KktSocDenseHs.vhead y)
+                (Clarabel.Lemmas.KktSocDenseHs.vtail y) 1 0 w0 w1 η).2 ∧
+      0 ≤ qf (fun a a' : Fin d => coneH (.soc d) H a.val a'.val) y) :=
+  ⟨fun x0 x1 hx a ha =>
+      Clarabel.Lemmas.KktSocDenseHs.socDense_block_eq_mulHs w0 w1 η d hd h2 h4 H hH x0 x1 hx a ha,
+    fun hw hw0 y =>
+      ⟨Clarabel.Lemmas.KktSocDenseHs.socDense_block_qf w0 w1 η d hd h2 h4 H hH hw hw0 y,
+        Clarabel.Lemmas.KktSocDenseHs.socDense_block_psd w0 w1 η d hd h2 h4 H hH hw hw0 y⟩⟩
+
+/-- non-vacuity of `socDense_block_is_WtW`: `w = (1, 0, 0)`, `η = 1`, `d = 3` -/
+example : ∃ H, getHs (.socDense (Clarabel.Soc.join (1 : ℝ) [0, 0]) 1) = .ok H ∧
+    (1 : ℝ) ^ 2 - Clarabel.Soc.dotL [0, 0] [0, 0] = 1 ∧ (0 : ℝ) < 1 := by
+  obtain ⟨H, hH⟩ := Clarabel.Lemmas.KktSocDenseHs.socDense_getHs_ok 1 [0, 0] 1 (by decide) (by decide)
+  exact ⟨H, hH, Clarabel.Lemmas.KktSocDenseHs.unit_w_normalised, one_pos⟩
+
+/-- [R] `C11.assembled_form_socDense`: the hypothesis `hform` of `kkt_factorisation_signs_assembled`
+/ `…_every_pass` for a DENSE second-order cone (dimension `2 … 4`), from the cone model: the scaling
+data `update` reads are `socDense w η` with `w` normalised (what `update_scaling` leaves: C13
+`soc_w_normalised`) — nothing about the block has to be supplied. -/
+theorem assembled_form_socDense {cones : List ConeSpec} (scal : List (ConeScaling ℝ))
+    (hfits : LayoutFits scal cones) (blocks : List (Array ℝ))
+    (hget : scal.mapM getHs = .ok blocks) (i : Fin cones.length) {d : Nat}
+    (hci : cones[i] = .soc d) (h2 : 2 ≤ d) {w0 η : ℝ} {w1 : List ℝ}
+    (hsc : scalAt scal i.val = .socDense (Clarabel.Soc.join w0 w1) η)
+    (hw : w0 ^ 2 - Clarabel.Soc.dotL w1 w1 = 1) (hw0 : 0 < w0)
+    (y : Fin (cones[i].numel) → ℝ) (s : Fin (nMinus cones[i]) → ℝ) :
+    0 ≤ expForm (HOf cones blocks i) (VOf cones scal i) (eOf cones scal i) y s :=
+  Clarabel.Lemmas.KktSocDenseHs.form_socDense scal hfits blocks hget i hci h2 hsc hw hw0 y s
+
+/-- non-vacuity of `assembled_form_socDense`: cone list `[soc 3]`, `w = (1, 0, 0)`, `η = 1` -/
+example : ∃ blocks : List (Array ℝ),
+    LayoutFits [ConeScaling.socDense (Clarabel.Soc.join (1 : ℝ) [0, 0]) 1] [ConeSpec.soc 3] ∧
+    [ConeScaling.socDense (Clarabel.Soc.join (1 : ℝ) [0, 0]) 1].mapM getHs = .ok blocks ∧
+    scalAt [ConeScaling.socDense (Clarabel.Soc.join (1 : ℝ) [0, 0]) 1] 0
+      = .socDense (Clarabel.Soc.join 1 [0, 0]) 1 := by
+  obtain ⟨H, hH⟩ := Clarabel.Lemmas.KktSocDenseHs.socDense_getHs_ok 1 [0, 0] 1 (by decide) (by decide)
+  refine ⟨[H], List.Forall₂.cons ⟨rfl, by decide⟩ List.Forall₂.nil, ?_, rfl⟩
+  simp [List.mapM_cons, hH, bind, Except.bind, pure, Except.pure]
+
+/-- [F] `C11.assembled_form_genpow`: the hypothesis `hform` for a GENERALISED POWER cone in the
+vocabulary of `assembled_symOf_eq_listKkt`: the scaling data `update` reads are
+`genpow μ p q r d1 d2` with `|q| = dim1`, `μ = (√μ)²` and `D − qqᵀ − rrᵀ ⪰ 0` (`inertia_genpow_data`)
+— the transport analogous to `assembled_form_soc`. -/
+theorem assembled_form_genpow {α : Type} [Field α] [LinearOrder α] [IsStrictOrderedRing α]
+    [FloatLike α] {cones : List ConeSpec} (scal : List (ConeScaling α))
+    (hfits : LayoutFits scal cones) (blocks : List (Array α))
+    (hget : scal.mapM getHs = .ok blocks) (i : Fin cones.length) {a b : ℕ}
+    (hci : cones[i] = .genpow a b) {μ d2 : α} {p q r d1 : Array α}
+    (hsc : scalAt scal i.val = .genpow μ p q r d1 d2) (hq : q.size = d1.size)
+    (hsm : sqrt μ * sqrt μ = μ)
+    (hD : ∀ y : Fin (d1.size + r.size) → α,
+      Clarabel.Lemmas.KktExpansion.dot (Clarabel.Lemmas.KktUpdateSchur.placeAt q 0) y ^ 2
+        + Clarabel.Lemmas.KktExpansion.dot (Clarabel.Lemmas.KktUpdateSchur.placeAt r d1.size) y ^ 2
+        ≤ ∑ k, Clarabel.Lemmas.KktUpdateSchur.genpowD d1 d2 k * y k ^ 2)
+    (y : Fin (cones[i].numel) → α) (s : Fin (nMinus cones[i]) → α) :
+    0 ≤ expForm (HOf cones blocks i) (VOf cones scal i) (eOf cones scal i) y s :=
+  Clarabel.Lemmas.KktFormGenPow.form_genpow scal hfits blocks hget i hci hsc hq hsm hD y s
+
+/-- [R] `C11.assembled_form_genpow_interior`: **… from interior-ness alone.**  The scaling data of
+the cone are what the generalised-power-cone model stored at an ACCEPTED `update_scaling` (C14
+`genpow_update_scaling_test`: accepted iff `ζ > 0`) at a dual point `(u, w)` with `u > 0`, exponents
+`α > 0`, `Σα = 1`, and `μ ≥ 0`: then `Hs = μ(D + ppᵀ − qqᵀ − rrᵀ)` with the closed-form `D, p, q, r`
+of C14's Hessian representation (`updateDualGradH_data`), `D − qqᵀ − rrᵀ ⪰ 0` (`inertia_genpow_data`),
+and the bordered block of `assembled_symOf_eq_listKkt` has a nonnegative form. -/
+theorem assembled_form_genpow_interior {cones : List ConeSpec} (scal : List (ConeScaling ℝ))
+    (hfits : LayoutFits scal cones) (blocks : List (Array ℝ))
+    (hget : scal.mapM getHs = .ok blocks) (i : Fin cones.length) {a b : ℕ}
+    (hci : cones[i] = .genpow a b) (al u w : List ℝ) (hlen : al.length = u.length)
+    (ha : ∀ x ∈ al, 0 < x) (hsum : al.sum = 1) (hu : ∀ x ∈ u, 0 < x)
+    {st st' : Clarabel.GenPow.State ℝ} {mu : ℝ} (hmu : 0 ≤ mu)
+    (hacc : Clarabel.GenPow.updateScaling al.toArray st (u ++ w).toArray mu = .ok (true, st'))
+    (hsc : scalAt scal i.val = scalingOfGenPow st')
+    (y : Fin (cones[i].numel) → ℝ) (s : Fin (nMinus cones[i]) → ℝ) :
+    0 ≤ expForm (HOf cones blocks i) (VOf cones scal i) (eOf cones scal i) y s :=
+  Clarabel.Lemmas.KktFormGenPow.form_genpow_accepted scal hfits blocks hget i hci al u w hlen ha hsum
+    hu hmu hacc hsc y s
+
+/-- non-vacuity of `assembled_form_genpow` / `assembled_form_genpow_interior`: cone list
+`[genpow 2 1]`, `α = (½, ½)`, `(u, w) = ((1, 1), (½))` (`ζ = 15/4 > 0`), `μ = 1`: `update_scaling`
+accepts, the stored data fit the cone list and `get_Hs` succeeds. -/
+example : ∃ (st' : Clarabel.GenPow.State ℝ) (blocks : List (Array ℝ)),
+    Clarabel.GenPow.updateScaling ([1 / 2, 1 / 2] : List ℝ).toArray (Clarabel.GenPow.State.init 2 1)
+      (([1, 1] : List ℝ) ++ [1 / 2]).toArray 1 = .ok (true, st') ∧
+    LayoutFits [scalingOfGenPow st'] [ConeSpec.genpow 2 1] ∧
+    [scalingOfGenPow st'].mapM getHs = .ok blocks ∧
+    scalAt [scalingOfGenPow st'] 0 = scalingOfGenPow st' ∧
+    (∀ x ∈ ([1 / 2, 1 / 2] : List ℝ), 0 < x) ∧ ([1 / 2, 1 / 2] : List ℝ).sum = 1 ∧
+    (∀ x ∈ ([1, 1] : List ℝ), 0 < x) := by
+  have hζ : 0 < Clarabel.GenPow.prodPhi [1 / 2, 1 / 2] [1, 1] - Clarabel.GenPow.sumSq [1 / 2] := by
+    unfold Clarabel.GenPow.prodPhi Clarabel.GenPow.sumSq
+    norm_num
+  obtain ⟨D, _, hacc⟩ := Clarabel.GenPow.updateScaling_accept [1 / 2, 1 / 2] [1, 1] [1 / 2] rfl
+    (Clarabel.GenPow.State.init 2 1) 1 hζ
+  obtain ⟨hfit, _, _⟩ := genpow_update_fits (dim2 := 1) (by rfl) hacc
+  refine ⟨_, [Clarabel.GenPow.getHs D 1 D.r.size], hacc,
+    layoutFits_of_forall (List.Forall₂.cons hfit List.Forall₂.nil), ?_, rfl, ?_, by norm_num, ?_⟩
+  · simp only [List.mapM_cons, List.mapM_nil, genpow_getHs_eq]
+    rfl
+  · intro x hx; simp at hx; subst hx; norm_num
+  · intro x hx; simp at hx; subst hx; norm_num
+
+end cone_model_blocks
 
 end Clarabel.C11
